@@ -586,14 +586,17 @@ Proof.
   repeat split; try reflexivity; try discriminate; try (vm_compute; intros H; discriminate H).
 Qed.
 
-(* a POST carrying the override header and a Content-Type that is neither the form nor the multipart one is accepted
-   with a nil Body (tunnelling.go:116-117): not rejected, and the body is gone *)
-Lemma override_with_other_content_type_nil_body :
-  exists r d, w_method r = http_post /\ w_body r <> [] /\ decode_tunnelled_query r = DOk d /\ d_body d = None.
+(* a POST carrying the override header and a Content-Type that is neither the form nor the multipart one (or none at
+   all) is rejected (tunnelling.go:116-118) *)
+Lemma override_with_other_content_type_rejected r tm mt b :
+  opt_nonempty (w_override r) = Some tm -> w_method r = http_post -> w_rawquery r = [] ->
+  parse_media_type (match opt_nonempty (w_ct r) with Some v => v | None => [] end) = (mt, b) ->
+  mt <> form_urlencoded_content_type -> mt <> multipart_mixed_content_type ->
+  serve r = Rejected400.
 Proof.
-  exists {| w_method := http_post; w_path := [x2f;x63]; w_rawquery := []; w_ct := Some application_json_content_type;
-            w_override := Some [x50;x55;x54]; w_other := []; w_body := [x7b;x7d] |}.
-  eexists. repeat split; try discriminate; try (vm_compute; reflexivity).
+  intros Ho Hm Hq Hp H1 H2. unfold serve, decode_tunnelled_query. rewrite Ho, Hm, Hq, Hp.
+  change (bytes_eqb http_post http_post) with true. cbn [negb null].
+  apply bytes_eqb_neq in H1. apply bytes_eqb_neq in H2. rewrite H1, H2. reflexivity.
 Qed.
 
 (* ------------------------------------------------------------------------------------------------ statements as used in Props/C14.v *)
@@ -621,9 +624,15 @@ Lemma malformed_tunnel_rejected :
      opt_nonempty (w_override r) = Some tm -> w_method r = http_post -> w_rawquery r = [] ->
      parse_media_type (match opt_nonempty (w_ct r) with Some v => v | None => [] end) = (multipart_mixed_content_type, b) ->
      parse_multipart (match b with Some x => x | None => [] end) (w_body r) = None ->
+     serve r = Rejected400) /\
+  (forall r tm mt b,
+     opt_nonempty (w_override r) = Some tm -> w_method r = http_post -> w_rawquery r = [] ->
+     parse_media_type (match opt_nonempty (w_ct r) with Some v => v | None => [] end) = (mt, b) ->
+     mt <> form_urlencoded_content_type -> mt <> multipart_mixed_content_type ->
      serve r = Rejected400).
 Proof.
-  split; [exact malformed_multipart_rejected|]. split.
+  split; [exact malformed_multipart_rejected|]. split; [|split].
   - intros r tm H1 H2 H3. unfold serve. rewrite (override_with_url_query_rejected r tm H1 H2 H3). reflexivity.
   - exact bad_framing_rejected.
+  - exact override_with_other_content_type_rejected.
 Qed.
